@@ -4,6 +4,8 @@
 // eof-needs-declared-end-or-abort, abort releases all waiters [deadlock monitor], nothing leaked).
 //   c16c <seed> <from> <to>
 #include <Vector/BLF.h>
+#include <condition_variable>
+#include <mutex>
 #include <set>
 #include <sstream>
 #include <thread>
@@ -38,10 +40,11 @@ int main(int argc, char ** argv) {
         hc::begin_case(std::to_string(idx));
         wd::arm(dfsmode ? 1200 : 60, "c16c");
         Rng r(Rng::mix(seed ^ 0xC16C, (uint64_t)idx));
-        uint32_t cap = 1 + r.below(3); uint32_t n = r.below(5); int xkind = r.below(3);
-        if (dfsmode) { cap = 1 + (uint32_t)(idx % 3); n = (uint32_t)((idx / 3) % 4); xkind = (int)((idx / 12) % 3); } bool xabort = xkind == 1; bool xfull = xkind == 2; int xdelay = dfsmode ? 0 : r.below(12);   // X: 0 setFileSize(tellp), 1 abort, 2 setFileSize(n) = total length declared up front
+        uint32_t cap = 1 + r.below(3); uint32_t n = r.below(5); int xkind = r.below(4);
+        if (dfsmode) { cap = 1 + (uint32_t)(idx % 3); n = (uint32_t)((idx / 3) % 4); xkind = (int)((idx / 12) % 4); } bool xabort = xkind == 1; bool xfull = xkind == 2; bool xsmall = xkind == 3 && n > 0; uint32_t xk = xsmall ? r.below(n) : 0; int xdelay = dfsmode ? 0 : r.below(12);   // X: 0 setFileSize(tellp), 1 abort, 2 setFileSize(n) = total length declared up front
+        // 3: once the producer is done, a size BELOW the number written is declared (the consumer may already be blocked on the empty queue)
         int strategy = r.chance(3, 4) ? SCHED_RANDOM : SCHED_FAVOUR; int sparam = r.below(3);
-        std::ostringstream cfg; cfg << "cap=" << cap << " n=" << n << " x=" << (xabort ? "abort" : xfull ? "setFileSize(n)" : "setFileSize(tellp)") << (idx % 2 ? " spurious" : "") << " delay=" << xdelay << " strategy=" << strategy << "/" << sparam;
+        std::ostringstream cfg; cfg << "cap=" << cap << " n=" << n << " x=" << (xabort ? std::string("abort") : xfull ? std::string("setFileSize(n)") : xsmall ? "after-producer:setFileSize(" + std::to_string(xk) + ")" : std::string("setFileSize(tellp)")) << (idx % 2 ? " spurious" : "") << " delay=" << xdelay << " strategy=" << strategy << "/" << sparam;
         static std::string ctx; ctx = cfg.str() + " case=" + std::to_string(idx);
         sched_on_violation = [](const char * kind, const char * key, const char * report) {
             std::string rr = report; for (auto & ch : rr) if (ch == '\n') ch = '|';
@@ -59,13 +62,16 @@ int main(int argc, char ** argv) {
         {
             ObjectQueue<ObjectHeaderBase> q;
             q.setBufferSize(cap);
+            std::mutex pm; std::condition_variable pcv; bool pdone = false;
             std::thread P([&] {
+                struct Done { std::mutex & m; std::condition_variable & cv; bool & d; ~Done() { { std::lock_guard<std::mutex> l(m); d = true; } cv.notify_all(); } } done{pm, pcv, pdone};
                 for (uint32_t i = 0; i < n; i++) { wlog[i].op = WRITE; wlog[i].val = i + 1; wlog[i].done = false; wlog[i].call = sched_steps(); q.write(new Tok(i + 1)); wlog[i].ret = sched_steps(); wlog[i].done = true; }
             });
             std::thread X([&] {
                 std::mutex m; for (int i = 0; i < xdelay; i++) { std::lock_guard<std::mutex> l(m); }   // scheduling points
+                if (xsmall) { std::unique_lock<std::mutex> l(pm); pcv.wait(l, [&] { return pdone; }); }
                 xev.op = xabort ? ABORT : SETSIZE; xev.call = sched_steps();
-                if (xabort) q.abort(); else { xev.val = xfull ? n : q.tellp(); q.setFileSize(xev.val); }
+                if (xabort) q.abort(); else { xev.val = xfull ? n : xsmall ? xk : q.tellp(); q.setFileSize(xev.val); }
                 xev.ret = sched_steps(); xev.done = true;
             });
             for (;;) {
